@@ -9,6 +9,7 @@ TIE:   every reported minimum / maximum is compared with an optimum certified by
 from __future__ import annotations
 
 import json
+import math
 import logging
 import sys
 import warnings
@@ -25,6 +26,9 @@ common.ensure_repo_on_path()
 from cobra.flux_analysis import flux_variability_analysis  # noqa: E402
 
 TOL = 1e-6
+
+
+UNBOUNDED = "unbounded"
 
 
 def close(a, b, tol=TOL):
@@ -202,10 +206,15 @@ def prepare_cases(cases):
             stage3.append((c, rid, "min", (nn, vb, rows, [-x for x in e])))
     certs = lpcert.certify([x[3] for x in stage3]) if stage3 else []
     for (c, rid, what, _), cert in zip(stage3, certs):
-        if cert["status"] != "optimal":
-            c["_skip"] = "range-not-bounded"
-            continue
         ex = c.setdefault("_exact", {}).setdefault(rid, [None, None])
+        if cert["status"] == "unbounded":
+            # the flux has no largest (smallest) value: certified by a feasible point and an improving ray.  FVA may refuse to answer
+            # (the pinned code raises); a finite number reported for this end of the range is false
+            ex[1 if what == "max" else 0] = UNBOUNDED
+            continue
+        if cert["status"] != "optimal":
+            c["_skip"] = "range-not-certified"
+            continue
         if what == "max":
             ex[1] = cert["value"]
         else:
@@ -223,6 +232,7 @@ def check_case(case):
     fraction = F(case["fraction"])
     want = case["reactions"]
     exact = case["_exact"]
+    unbounded_end = any(v == UNBOUNDED for rid in want for v in exact[rid])
     with warnings.catch_warnings():
         warnings.simplefilter("ignore")
         m = coreops.build_model(spec)
@@ -233,7 +243,15 @@ def check_case(case):
                                             pfba_factor=None if case["pfba_factor"] is None else float(F(case["pfba_factor"])),
                                             loopless=False, processes=1)
         except Exception as e:
+            if unbounded_end and type(e).__name__ in ("OptimizationError", "Unbounded", "UndefinedSolution"):
+                return fails, "ran"           # no report for a range that has no end
             return [f"flux_variability_analysis raised {type(e).__name__}: {e}"], "ran"
+        for rid in want:
+            for end, name, got in ((0, "minimum", res.at[rid, "minimum"]), (1, "maximum", res.at[rid, "maximum"])):
+                if exact[rid][end] == UNBOUNDED and math.isfinite(got):
+                    fails.append(f"{name} of {rid} reported as {got}, but the flux of {rid} is unbounded in that direction (certified ray)")
+        if unbounded_end:
+            return fails, "ran"
         if sorted(res.index) != sorted(want):
             fails.append(f"result rows {sorted(res.index)} != requested reactions {sorted(want)}")
         for rid in want:
@@ -285,7 +303,22 @@ def public(case):
 
 
 def gen_case(rng):
+    # mostly finite bounds (every range has two ends); some models keep infinite bounds, where a range can be unbounded
     spec = gen_bounded_spec(rng)
+    if rng.random() < 0.15:
+        for r in spec["rxns"]:
+            if r["id"] in spec["obj"]:
+                continue              # the objective stays bounded, the routes around it do not
+            if F(r["ub"]) > 0 and rng.random() < 0.6:
+                r["ub"] = "inf"
+            if F(r["lb"]) < 0 and rng.random() < 0.4:
+                r["lb"] = "-inf"
+        if rng.random() < 0.7:
+            # an unlimited source and an unlimited drain of one metabolite: both ranges have no upper end
+            mets = sorted({m for r in spec["rxns"] for m in r["st"]})
+            x = rng.choice(mets)
+            spec["rxns"].append({"id": "UB_in", "st": {x: "1"}, "lb": "0", "ub": "inf", "rule": ""})
+            spec["rxns"].append({"id": "UB_out", "st": {x: "-1"}, "lb": rng.choice(["0", "-5"]), "ub": "inf", "rule": ""})
     rids = [r["id"] for r in spec["rxns"]]
     k = rng.randint(1, len(rids))
     return {"spec": spec, "fraction": rng.choice(["1", "1", "1/2", "9/10", "0", "1/4"]),
